@@ -683,6 +683,38 @@ fn emit_fn(out: &mut Value, req: &Value, sig: &Signature, block: &Block, impl_hd
         }
         n.log("N11d-slice-option-return", sig.ident.span());
     }
+    // N11g (slices of a loop body whose enclosing loop is left with a value): with `slice_break_value=1` the slice returns `Option<T>`:
+    // `break E;` of the enclosing loop (not of a loop inside the slice) is `return Some(E);` - the loop ends with E there -, a `continue`
+    // of the enclosing loop is `return None;`, and falling through the slice (the next iteration follows) is the tail `None`
+    if req["slice_break_value"].as_bool().unwrap_or(false) {
+        struct BV;
+        impl VisitMut for BV {
+            fn visit_expr_mut(&mut self, e: &mut Expr) {
+                match e {
+                    Expr::Closure(_) | Expr::Async(_) | Expr::Loop(_) | Expr::While(_) | Expr::ForLoop(_) => {}
+                    Expr::Break(br) if br.label.is_none() => {
+                        let ne: Expr = match br.expr.take() {
+                            Some(v) => parse_quote!(return Some(#v)),
+                            None => parse_quote!(return None),
+                        };
+                        *e = ne;
+                    }
+                    Expr::Continue(c) if c.label.is_none() => {
+                        let ne: Expr = parse_quote!(return None);
+                        *e = ne;
+                    }
+                    _ => visit_mut::visit_expr_mut(self, e),
+                }
+            }
+            fn visit_item_mut(&mut self, _: &mut Item) {}
+        }
+        BV.visit_block_mut(&mut b);
+        if let Some(Stmt::Expr(_, semi @ None)) = b.stmts.last_mut() {
+            *semi = Some(Default::default());
+        }
+        b.stmts.push(Stmt::Expr(parse_quote!(None), None));
+        n.log("N11g-slice-break-value", sig.ident.span());
+    }
     // N11f (slices that contain an early `return E` of the enclosing function): with `slice_wrap_return=1` the slice returns
     // `Option<T>`: `return E;` is `return Some(E);` (the enclosing function returns E there) and falling through the slice is the
     // tail given by `slice_tail=None`
